@@ -47,7 +47,7 @@ Proof. exact layout_band_first_thm. Qed.
 Print Assumptions C15_layout_band_first.
 
 (** the shape-only guess cannot tell a cube-shaped band-first array from a
-    band-last one (the witness of fix a0aeca2: the public entry points now pass
+    band-last one (the witness of fix 1cabe7b: the public entry points now pass
     the Y axis, C15_layout_band_first) *)
 Theorem C15_layout_guess_ambiguous_refuted :
   exists nb h w, norm_layout [nb; h; w] (h, w) None <> Ok (LBandFirst, (nb, h, w)).
